@@ -203,7 +203,7 @@ func runC06_1(c *core.Ctx) {
 						}
 						for _, call := range flow.Calls(n) {
 							if flow.IsCall(f.Info, call, trig) && len(call.Args) == 3 {
-								if fl, ok := ast.Unparen(call.Args[1]).(*ast.FuncLit); ok && litReturnsOnly(f, fl, shut) {
+								if fl, ok := seeThrough(f, call.Args[1]).(*ast.FuncLit); ok && litReturnsOnly(f, fl, shut) {
 									found = true
 								}
 							}
@@ -307,7 +307,7 @@ func runC06_3(c *core.Ctx) {
 			}
 			for _, inner := range callsIn(fl.Body, false) {
 				if flow.IsCall(f.Info, inner, trig) && len(inner.Args) == 3 {
-					if tl, ok := ast.Unparen(inner.Args[1]).(*ast.FuncLit); ok && litReturnsOnly(f, tl, shut) {
+					if tl, ok := seeThrough(f, inner.Args[1]).(*ast.FuncLit); ok && litReturnsOnly(f, tl, shut) {
 						return true
 					}
 				}
@@ -352,8 +352,16 @@ func runC06_3(c *core.Ctx) {
 						add(ev{fOnShutdown, fSignal, "OnShutdown"}, y.Pos())
 					case isExitIterate(y):
 						add(ev{fExitTasks, fSignal | fOnShutdown, "exit tasks to all loops"}, y.Pos())
-					case flow.IsCall(f.Info, y, trig) && len(y.Args) == 3 && strings.Contains(flow.PathOf(f.Info, flow.Recv(y)).Sel, ".ingress.poller"):
-						if tl, ok := ast.Unparen(y.Args[1]).(*ast.FuncLit); ok && litReturnsOnly(f, tl, shut) {
+					case flow.IsCall(f.Info, y, trig) && len(y.Args) == 3 && (strings.Contains(flow.PathOf(f.Info, flow.Recv(y)).Sel, ".ingress.poller") || func() bool {
+						// the main reactor through a local: mainLoop := eng.ingress … mainLoop.poller.Trigger(…)
+						ps, ok := ast.Unparen(flow.Recv(y)).(*ast.SelectorExpr)
+						if !ok || ps.Sel.Name != "poller" {
+							return false
+						}
+						is, ok := seeThrough(f, ps.X).(*ast.SelectorExpr)
+						return ok && nameOf(flow.FieldOf(f.Info, is)) == "ingress"
+					}()):
+						if tl, ok := seeThrough(f, y.Args[1]).(*ast.FuncLit); ok && litReturnsOnly(f, tl, shut) {
 							add(ev{fIngress, fSignal | fOnShutdown, "exit task to the main reactor"}, y.Pos())
 						}
 					case cf != nil && nameOf(cf) == "Wait" && cf.Pkg() != nil && strings.HasSuffix(cf.Pkg().Path(), "errgroup"):
@@ -380,7 +388,7 @@ func runC06_3(c *core.Ctx) {
 		}
 		p.Edge = func(e *flow.Edge, in uint64) uint64 {
 			if e.Cond != nil && e.Tag == nil {
-				if x, y, op, ok := flow.Cmp(e.Cond); ok && flow.IsNil(f.Info, y) && flow.FieldOf(f.Info, x) == ingress && (op == token.EQL) == e.Sense {
+				if x, y, op, ok := flow.Cmp(e.Cond); ok && flow.IsNil(f.Info, y) && (flow.FieldOf(f.Info, x) == ingress || flow.FieldOf(f.Info, seeThrough(f, x)) == ingress) && (op == token.EQL) == e.Sense {
 					in |= fIngress // no main reactor (reuse-port mode)
 				}
 				if call, ok := ast.Unparen(e.Cond).(*ast.CallExpr); ok && isShutdownFn != nil && flow.IsCall(f.Info, call, isShutdownFn) && e.Sense {
@@ -414,7 +422,7 @@ func runC06_3(c *core.Ctx) {
 		if fa.Field != inShutdown || fa.Kind != core.AccAtomic || fa.Callee == nil || ssaName(fa.Callee) != "Store" {
 			continue
 		}
-		site := core.SSAName(fa.Fn)
+		site := core.SSAHostName(fa.Fn)
 		c.Check(site == "(*gnet.engine).stop" || site == "(*gnet.Client).Stop", site, "store to engine.inShutdown", fa.Pos, "written only at the end of the stop sequence",
 			"engine.inShutdown is stored outside the stop sequence: the control API would report 'in shutdown' while loops are still running (or never)")
 	}
